@@ -412,8 +412,24 @@ def _columns_mismatch(got, cols, cv, n, tol):
     return None
 
 
+def single_thread():
+    """BLAS runs in this process only: the replay workers are processes already, and on a shared machine a
+    multi-threaded eigen-decomposition of a 1000 x 1000 matrix takes 50 times longer than a single-threaded one"""
+    try:
+        import threadpoolctl
+        return threadpoolctl.threadpool_limits(limits=1)
+    except ImportError:
+        import contextlib
+        return contextlib.nullcontext()
+
+
 def replay_line_case(c):
     """Replays one CASE of LineChain.tla (committors / mfpts to a sink set / columns of the all-pairs table)."""
+    with single_thread():
+        return _replay_line_case(c)
+
+
+def _replay_line_case(c):
     from enspara import tpt
     n, mode = c["n"], c["mode"]
     T = line_matrix(c)
@@ -737,26 +753,29 @@ def _report(ctx, c, bad):
                    key=b["key"])
 
 
-def _replay_line_results(ctx, results, jobs):
-    """replays the CASE lines of the LineChain.tla jobs; returns the number of cases"""
-    ncases = 0
+def _replay_line_results(ctx, results, jobs, replay_fn=None, report=None):
+    """replays the CASE lines of the LineChain.tla / LineFlux.tla jobs (all of them in one pool, one large case per
+    task); returns the number of cases"""
+    cases = []
     for r, j in zip(results, jobs):
         if j.get("coverage") and not r.coverage:
             raise core.MachineryError("no coverage statistics from %s" % j["label"])
-        cases = [p for t, p in r.prints if t == "CASE"]
-        if not cases:
+        mine = [p for t, p in r.prints if t == "CASE"]
+        if not mine:
             raise core.MachineryError("no CASE lines emitted by %s" % j["label"])
-        ncases += len(cases)
-        large = any(c["n"] > 64 for c in cases)
-        res = core.pmap(replay_line_case, cases, chunk=1 if large else 50)
-        for c, bad in zip(cases, res):
-            nt = _nontrivial(c) if c["mode"] != "mfpt_cols" else True
-            key = ("line", c["n"], str(c["w"][:12]), str(c["s"][:12]), c["mode"], str(c["src"]), str(c["snk"]),
-                   str(c["cols"]), str(c["lag"]))
-            ctx.case(key if nt else None, sample=None)
-            ctx.traces += 1
-            _report(ctx, c, bad)
-    return ncases
+        cases += mine
+    cases.sort(key=lambda c: -c["n"])                   # the expensive ones first
+    nlarge = sum(1 for c in cases if c["n"] > 64)
+    res = core.pmap(replay_fn or replay_line_case, cases[:nlarge], chunk=1) + \
+        core.pmap(replay_fn or replay_line_case, cases[nlarge:], chunk=50)
+    for c, bad in zip(cases, res):
+        nt = _nontrivial(c) if c["mode"] in ("committor", "mfpt_sinks") else True
+        key = ("line", c["n"], str(c["w"][:12]), str(c["s"][:12]), c["mode"], str(c["src"]), str(c["snk"]),
+               str(c.get("cols")), str(c.get("lag")), str(c.get("pscale")))
+        ctx.case(key if nt else None, sample=None)
+        ctx.traces += 1
+        (report or _report)(ctx, c, bad)
+    return len(cases)
 
 
 def run(ctx):
